@@ -196,9 +196,19 @@ def check_pair(tag, local, x, y, S, d, e, nl, rows, score, want_names, msg0):
         return fail(f"reported-score-not-path-score{note}",
                     f"rows {r1!r} {r2!r} reported {score!r}, path score by spec {mine!r}, optimum {best!r}")
     if best is not None and mine < best - TOL:
-        return fail("path-not-optimal", f"rows {r1!r} {r2!r} score {mine!r} < best {best!r} ({how})")
+        note = ""
+        if any(S[a, b] != S[b, a] for (a, b) in S):
+            St = transposed(S)
+            bt = (sp.best_local if local else sp.best_global)(x, y, St, d, e, nl)[0] if max(len(x), len(y)) <= 5 else None
+            if bt is not None and abs(sp.path_score(r1, r2, St, d, e, nl, local) - bt) <= TOL:
+                note = "(path is optimal for the transposed table S[b,a])"
+        return fail(f"path-not-optimal{note}", f"rows {r1!r} {r2!r} score {mine!r} < best {best!r} ({how})")
     if best is not None and mine > best + TOL:
         return ("fail", "SPEC-SELFCHECK/path-better-than-enumerated-optimum", f"{msg0}: {mine} > {best}")
+    if not local and how == "enumeration of all alignments" and len(x) + len(y) <= 7:
+        # keeps the spec recurrence (used beyond the enumeration frontier) honest
+        if abs(sp.best_global_dp(x, y, S, d, e, nl) - best) > 1e-9:
+            return ("fail", "SPEC-SELFCHECK/recurrence-differs-from-enumeration", msg0)
     return None
 
 
@@ -439,7 +449,7 @@ PROG = [["HKY85", 1e-10, 0.1], ["F81", 0.1, 0.5], ["nucleotide", 0.01, 0.3]]
 
 
 def gen_prog(tier, seed):
-    """[[seqs], model, tree or None, indel_rate, indel_length]"""
+    """[[seqs], model, tree or None, indel_rate, indel_length, force linear-space DP]"""
     rnd = random.Random(seed * 1000 + 17)
     thorough = tier == "thorough"
     pool = words("AC", 1, 2) + ["ACA", "CCC", "ACGT", "GGTCA"]
@@ -447,7 +457,7 @@ def gen_prog(tier, seed):
     for t in itertools.product(pool, repeat=3):
         if thorough or k % 4 == 0:
             p = PROG[k % 3]
-            yield [list(t), p[0], TREES[3][k % 2], p[1], p[2]]
+            yield [list(t), p[0], TREES[3][k % 2], p[1], p[2], k % 8 == 0]
         k += 1
     for k in range(5000 if thorough else 400):
         n = (2, 3, 3, 4)[k % 4]
@@ -455,33 +465,40 @@ def gen_prog(tier, seed):
         seqs = [rword(rnd, 1, 5 if k % 3 else 9, alpha) for _ in range(n)]
         p = PROG[k % 3]
         tr = TREES[n][k % len(TREES[n])]
-        yield [seqs, p[0], tr, p[1], p[2]]
+        yield [seqs, p[0], tr, p[1], p[2], k % 5 == 0]
 
 
 def contract_prog(case):
     from cogent3 import get_app, make_unaligned_seqs
-    seqs, model, tree, rate, length = case
+    import cogent3.align.pairwise as pw
+    seqs, model, tree, rate, length = case[:5]
+    linear = len(case) > 5 and case[5]          # force the linear-space branch of the profile aligner
     names = list("abcd"[:len(seqs)])
     data = dict(zip(names, seqs))
-    msg0 = f"progressive_align seqs={data} model={model} tree={tree} indel_rate={rate} indel_length={length}"
+    tag = "progressive_align" + ("/hirschberg" if linear else "")
+    msg0 = f"{tag} seqs={data} model={model} tree={tree} indel_rate={rate} indel_length={length}"
     kw = {"guide_tree": tree} if tree else {}
+    old = pw.HIRSCHBERG_LIMIT
+    pw.HIRSCHBERG_LIMIT = 0 if linear else BIG
     try:
         app = get_app("progressive_align", model=model, indel_rate=rate, indel_length=length, **kw)
         res = app(make_unaligned_seqs(data, moltype="dna"))
     except Exception as ex:
-        return ("fail", f"progressive_align/raises/{type(ex).__name__}", f"{msg0}: {type(ex).__name__}: {str(ex)[:200]}")
+        return ("fail", f"{tag}/raises/{type(ex).__name__}", f"{msg0}: {type(ex).__name__}: {str(ex)[:200]}")
+    finally:
+        pw.HIRSCHBERG_LIMIT = old
     if type(res).__name__ == "NotCompleted" or not hasattr(res, "to_dict"):
         if tree is None:
             return ("skip",)        # no guide tree could be estimated from these sequences: outside the statement
-        return ("fail", "progressive_align/not-completed-with-guide-tree", f"{msg0}: {str(res)[:300]}")
+        return ("fail", f"{tag}/not-completed-with-guide-tree", f"{msg0}: {str(res)[:300]}")
     rows = {k: str(v) for k, v in res.to_dict().items()}
     if sorted(rows) != names:
-        return ("fail", "progressive_align/row-names", f"{msg0}: {sorted(rows)}")
+        return ("fail", f"{tag}/row-names", f"{msg0}: {sorted(rows)}")
     if len({len(v) for v in rows.values()}) != 1:
-        return ("fail", "progressive_align/ragged-rows", f"{msg0}: {rows}")
+        return ("fail", f"{tag}/ragged-rows", f"{msg0}: {rows}")
     for nm in names:
         if rows[nm].replace("-", "") != data[nm]:
-            return ("fail", "progressive_align/degapped-row-not-input", f"{msg0}: {rows}")
+            return ("fail", f"{tag}/degapped-row-not-input", f"{msg0}: {rows}")
     return ("ok", len({len(s) for s in seqs}) > 1)
 
 
@@ -534,7 +551,7 @@ BOUNDED = {
                       "align.progressive._progressive_hmm", "align.pairwise_pogs_numba.calc_rows",
                       "align.pairwise.AlignablePOG._calcAligneds", "align.traceback.map_traceback"],
         "bound": "ordered triples from 10 sequences of length 1..5 (quick every fourth) with 2 guide trees x 3 model/indel "
-                 "settings; seeded sample of 2-4 sequences of length <=9 (incl. N) with and without a guide tree",
+                 "settings; seeded sample of 2-4 sequences of length <=9 (incl. N) with and without a guide tree; a fifth to an eighth of the cases with HIRSCHBERG_LIMIT=0",
         "rule": "a case = (sequences, model, guide tree, indel rate, indel length); non-trivial when lengths differ",
     },
 }
